@@ -610,6 +610,14 @@ fn audit<C: Check>(check: &C, n: u64) -> i32 {
     let tier = tier_from_env(Tier::Quick);
     let threads = env_u64("VERIF_THREADS").unwrap_or(16).max(1) as usize;
     let total = n.min(check.runs(tier));
+    // VERIF_AUDIT_EXTRA: further run indices (the rare, large scenarios that sit at particular indices of a tier)
+    let extra: Vec<u64> = std::env::var("VERIF_AUDIT_EXTRA")
+        .unwrap_or_default()
+        .split(',')
+        .filter_map(|t| t.trim().parse().ok())
+        .filter(|i| *i >= total && *i < check.runs(tier))
+        .collect();
+    let work: Vec<u64> = (0..total).chain(extra).collect();
     let next = AtomicU64::new(0);
     let out: Mutex<Vec<(u64, u64)>> = Mutex::new(Vec::new());
     std::thread::scope(|s| {
@@ -617,10 +625,8 @@ fn audit<C: Check>(check: &C, n: u64) -> i32 {
             s.spawn(|| {
                 let mut local = Vec::new();
                 loop {
-                    let i = next.fetch_add(1, Ordering::Relaxed);
-                    if i >= total {
-                        break;
-                    }
+                    let k = next.fetch_add(1, Ordering::Relaxed);
+                    let Some(&i) = work.get(k as usize) else { break };
                     let mut g = Xo::derive(seed, check.id(), 0, i);
                     let sc = check.generate(&mut g, tier, i);
                     let mut obs = Obs { audit: true, ..Obs::default() };
